@@ -109,3 +109,12 @@ func (v *Net) VerifNetIPs() []net.IP {
 
 	return ips
 }
+
+// VerifQueue returns the number of chunks and bytes waiting in the token
+// bucket filter's queue. Only meaningful while the filter goroutine is parked.
+func (t *TokenBucketFilter) VerifQueue() (chunks, bytes int) {
+	t.queue.mutex.RLock()
+	defer t.queue.mutex.RUnlock()
+
+	return len(t.queue.chunks), t.queue.currentBytes
+}
